@@ -200,6 +200,10 @@ pub fn alphabet(kind: TreeKind, n: usize, tick: u32, reduced: bool) -> Vec<Proto
     match kind {
         TreeKind::C12 => {
             for &bid in &[true, false] {
+                // boundary prices: the sentinels and the largest grid price
+                a.push(Proto::Op(Op::Create { bid, vol: 2, trader: 5, price: Some(u32::MAX) }));
+                a.push(Proto::Op(Op::Create { bid, vol: 2, trader: 5, price: Some(0) }));
+                a.push(Proto::Op(Op::Create { bid, vol: 2, trader: 5, price: Some(u32::MAX - 1) }));
                 a.push(Proto::Op(Op::CreatePlace { bid, vol: 2, trader: 4, price: Some(10 * tick + 1) }));
                 a.push(Proto::Op(Op::Create { bid, vol: 2, trader: 4, price: Some(11 * tick - 1) }));
             }
@@ -364,7 +368,8 @@ pub fn random_script<W: Write, const L: usize>(em: &mut Emitter<W>, id: u64, rng
         } else if roll < 95 && fam.reload {
             run.op(&Op::Reload);
         } else if roll < 98 && fam.offgrid {
-            let p = pm.price(rng).wrapping_add(1 + rng.below(tick.max(2) as u64 - 1) as u32);
+            let p = if rng.chance(1, 6) { *rng.pick(&[0u32, 1, u32::MAX, u32::MAX - 1, u32::MAX - 2]) }
+                    else { pm.price(rng).wrapping_add(1 + rng.below(tick.max(2) as u64 - 1) as u32) };
             let (both, bid, v) = (rng.chance(1, 2), rng.chance(1, 2), vol(rng, false));
             let o = if both { Op::CreatePlace { bid, vol: v, trader: 9, price: Some(p) } }
                     else { Op::Create { bid, vol: v, trader: 9, price: Some(p) } };
